@@ -156,7 +156,10 @@ func genScenario(r *hk.Rand, proto int, idx int) scenario {
 		}
 		nm := hk.Pick(r, pool)
 		k := recase(r, nm)
-		if r.Chance(40) {
+		if r.Chance(40) || k == http.CanonicalHeaderKey(nm) {
+			// never the canonical key: net/http semantics attach to that one (Host override,
+			// the HTTP/2 transport REFUSES a request with "Upgrade: websocket" - a refusal is
+			// not a corruption, but it is not what this cell is about)
 			k = nm
 		}
 		v := map[string]string{"connection": "keep-alive", "keep-alive": "timeout=5", "proxy-connection": "keep-alive",
